@@ -2,10 +2,12 @@ package sio
 
 import (
 	"context"
+	"encoding/json"
 	"fmt"
 	"os"
 	"sort"
 	"strings"
+	"sync"
 
 	"github.com/Comcast/sheens/core"
 	"github.com/Comcast/sheens/crew"
@@ -60,6 +62,11 @@ type sioRun struct {
 	tokens      int
 	panics      []string
 	handlerDone bool
+	cur         *sioEnv
+	envMu       sync.Mutex
+	busy        bool
+	fired       int
+	persisted   []byte
 }
 
 // takeHandler reports (once) that the handler requests are to be issued now.
@@ -89,28 +96,90 @@ type request struct {
 	due   int64
 }
 
-func runSioTimers(sc sScenario, prefix, prefixN []int) (*sched.Exec, *sioRun) {
-	x := sched.NewExec(prefix, prefixN)
-	r := &sioRun{}
+// sioEnv: the crew currently in service (replaced by a restart).
+type sioEnv struct {
+	c      *Crew
+	io     *sioCouplings
+	ctx    context.Context
+	cancel context.CancelFunc
+}
+
+// env/setEnv hand the crew in service from the thread that performs a restart to the others; a
+// restart is a full barrier in reality (a new process), so a real mutex is the right model here.
+func (r *sioRun) env() *sioEnv {
+	r.envMu.Lock()
+	defer r.envMu.Unlock()
+	return r.cur
+}
+
+func (r *sioRun) setEnv(e *sioEnv) {
+	r.envMu.Lock()
+	r.cur = e
+	r.envMu.Unlock()
+}
+
+//go:norace
+func (r *sioRun) setBusy(b bool) { r.busy = b }
+
+//go:norace
+func (r *sioRun) isBusy() bool { return r.busy }
+
+//go:norace
+func (r *sioRun) noteFired() { r.fired++ }
+
+//go:norace
+func (r *sioRun) firedCount() int { return r.fired }
+
+func (r *sioRun) persist(js []byte) {
+	r.envMu.Lock()
+	r.persisted = js
+	r.envMu.Unlock()
+}
+
+func (r *sioRun) stored() []byte {
+	r.envMu.Lock()
+	defer r.envMu.Unlock()
+	return r.persisted
+}
+
+func newSioEnv(r *sioRun, persisted []byte) *sioEnv {
 	ctx, cancel := context.WithCancel(context.Background())
 	io := &sioCouplings{in: make(chan interface{}, 64), out: make(chan *Result, 64)}
 	c, err := NewCrew(ctx, &CrewConf{Id: "t", Ctl: &core.Control{Limit: 100}}, io)
 	if err != nil {
 		panic(err)
 	}
-	ts := c.timers
-	orig := ts.Emitter
-	ts.Emitter = func(ctx context.Context, te *TimerEntry) {
+	orig := c.timers.Emitter
+	c.timers.Emitter = func(ctx context.Context, te *TimerEntry) {
 		tok := 0
 		if m, ok := te.Msg.(map[string]interface{}); ok {
 			if f, ok := m["token"].(float64); ok {
 				tok = int(f)
 			}
 		}
+		r.noteFired()
 		r.rec(rtimers.Ev{Kind: "fire-begin", Token: tok})
 		sched.Yield("emit")
 		orig(ctx, te)
 	}
+	if persisted != nil {
+		// the boot path: the stored timers machine state is handed to SetMachine
+		var st core.State
+		if err := json.Unmarshal(persisted, &st); err == nil {
+			if err := c.SetMachine(ctx, TimersMachine, nil, &st); err != nil {
+				r.addPanic("restart: SetMachine(timers) failed: " + err.Error())
+			}
+		} else {
+			r.addPanic("restart: persisted timers state does not load: " + err.Error())
+		}
+	}
+	return &sioEnv{c: c, io: io, ctx: ctx, cancel: cancel}
+}
+
+func runSioTimers(sc sScenario, prefix, prefixN []int) (*sched.Exec, *sioRun) {
+	x := sched.NewExec(prefix, prefixN)
+	r := &sioRun{}
+	r.setEnv(newSioEnv(r, nil))
 	msgFor := func(q *request) interface{} {
 		switch q.op.K {
 		case "make":
@@ -122,13 +191,15 @@ func runSioTimers(sc sScenario, prefix, prefixN []int) (*sched.Exec, *sioRun) {
 		return nil
 	}
 	submit := func(op sOp) {
+		e := r.env()
 		switch op.K {
 		case "make":
 			q := &request{op: op, token: r.nextToken()}
-			io.in <- msgFor(q)
+			e.io.in <- msgFor(q)
 		case "cancel":
-			io.in <- msgFor(&request{op: op})
+			e.io.in <- msgFor(&request{op: op})
 		case "pending":
+			ts := e.c.timers
 			ts.Lock()
 			var ids []string
 			for id := range ts.Map {
@@ -137,6 +208,16 @@ func runSioTimers(sc sScenario, prefix, prefixN []int) (*sched.Exec, *sioRun) {
 			ts.Unlock()
 			sort.Strings(ids)
 			r.rec(rtimers.Ev{Kind: "pending", IDs: ids})
+		case "restart":
+			// a restart between creation and due time, at a message boundary: nothing has fired,
+			// nothing is queued or being processed
+			if sched.TimersFired() > 0 || r.firedCount() > 0 || r.isBusy() || len(e.io.in) > 0 {
+				r.rec(rtimers.Ev{Kind: "restart-skipped"})
+				return
+			}
+			e.cancel()
+			r.rec(rtimers.Ev{Kind: "restart"})
+			r.setEnv(newSioEnv(r, r.stored()))
 		}
 	}
 	x.Go("requester", func() {
@@ -147,8 +228,17 @@ func runSioTimers(sc sScenario, prefix, prefixN []int) (*sched.Exec, *sioRun) {
 	})
 	x.GoDaemon("loop", func() {
 		for {
-			sched.WaitUntil("loop-recv", func() bool { return len(io.in) > 0 })
-			msg := <-io.in
+			sched.WaitUntil("loop-recv", func() bool { return len(r.env().io.in) > 0 })
+			if !sched.Active() {
+				return // the execution is over (shims are pass-through): do not spin
+			}
+			e := r.env()
+			if len(e.io.in) == 0 {
+				continue
+			}
+			msg := <-e.io.in
+			r.setBusy(true)
+			c, ts := e.c, e.c.timers
 			var q *request
 			if m, ok := msg.(map[string]interface{}); ok {
 				if v, ok := m["verif"].(*request); ok {
@@ -165,10 +255,18 @@ func runSioTimers(sc sScenario, prefix, prefixN []int) (*sched.Exec, *sioRun) {
 				q.due = sched.NowNS() + q.op.D*1000000
 				r.rec(rtimers.Ev{Kind: "add-begin", Id: q.op.Id, Token: q.token, Due: q.due})
 			}
-			var perr string
-			if p, pm, where := vh.Trap(func() { _, err = c.ProcessMsg(ctx, msg) }); p {
-				perr = "panic: " + pm + " at " + where
-				r.addPanic(perr)
+			var res *Result
+			var err error
+			if p, pm, where := vh.Trap(func() { res, err = c.ProcessMsg(e.ctx, msg) }); p {
+				r.addPanic("panic: " + pm + " at " + where)
+			}
+			_ = err
+			if res != nil {
+				if ch, have := res.Changed[TimersMachine]; have && ch.State != nil {
+					if js, err := json.Marshal(ch.State); err == nil {
+						r.persist(js) // what a host would have on disk for the timers machine
+					}
+				}
 			}
 			if q != nil {
 				errText := ""
@@ -202,11 +300,12 @@ func runSioTimers(sc sScenario, prefix, prefixN []int) (*sched.Exec, *sioRun) {
 					r.rec(rtimers.Ev{Kind: "cancel", Id: q.op.Id, Err: errText})
 				}
 			}
+			r.setBusy(false)
 			sched.Yield("loop-after")
 		}
 	})
 	x.Run()
-	cancel()
+	r.env().cancel()
 	x.Finish()
 	return x, r
 }
@@ -240,6 +339,20 @@ func sioScenarios(maxReq int, thorough bool) []sScenario {
 			out = append(out, sScenario{Req: s, Handler: h})
 		}
 	}
+	// a restart between creation and due time: the persisted timers resume in the new crew
+	restart := sOp{K: "restart"}
+	for _, pre := range [][]sOp{
+		{{K: "make", Id: "1", D: 10}},
+		{{K: "make", Id: "1", D: 10}, {K: "make", Id: "2", D: 3600000}},
+		{{K: "make", Id: "1", D: 10}, {K: "cancel", Id: "1"}},
+		{{K: "make", Id: "1", D: 10}, {K: "make", Id: "2", D: 10}, {K: "cancel", Id: "2"}},
+		{{K: "make", Id: "1", D: 3600000}, {K: "make", Id: "1", D: 10}},
+	} {
+		for _, post := range [][]sOp{nil, {{K: "pending"}}, {{K: "cancel", Id: "1"}}, {{K: "make", Id: "1", D: 10}}, {{K: "make", Id: "3", D: 10}, restart}} {
+			req := append(append(append([]sOp{}, pre...), restart), post...)
+			out = append(out, sScenario{Req: req}, sScenario{Req: req, Handler: []sOp{{K: "make", Id: "1", D: 10}}})
+		}
+	}
 	return out
 }
 
@@ -271,7 +384,11 @@ func C17sio(c *vh.Ctx) {
 	}
 	c.Rule("sio Timers through a real Crew: requests are messages to the timers machine ({makeTimer}/{cancelTimer}) queued by a requester thread; the harness plays Crew.Loop (receive, ProcessMsg); handler requests are queued while the first fired message is handled; same scenario alphabet, scheduler, virtual time and monitor as for mcrew; 'accepted' is read off the timers map after the request was processed (an add on an existing id that installs nothing counts as refused).")
 	for i, sc := range scs {
-		if !c.Mine(uint64(i)) {
+		if f := os.Getenv("VERIF_DEBUG_SCENARIO"); f != "" {
+			if fmt.Sprint(sc.Req, sc.Handler) != f {
+				continue
+			}
+		} else if !c.Mine(uint64(i)) {
 			continue
 		}
 		if c.Expired() {
